@@ -72,9 +72,12 @@ package expressions
 //@   loop 1 invariant 0 <= tree.charPos && old(tree.charPos) < tree.charPos
 //@   loop 1 decreases len(tree.expression) - tree.charPos
 
-//@ func (*ParserT).parseStatement [C20 C19]
+//@ func (*ParserT).parseStatement [C20 C19 C09]
 //@   check slice
 //@   requires tree != nil && tree.statement != nil
+// after a quoted literal ('...' or "...") the argument is kept even when it is empty (C09: the literal
+// evaluates to exactly its contents, also when there are none)
+//@   at store canHaveZeroLenStr#1 assert tree.statement.canHaveZeroLenStr
 
 // Variable tokens: a successfully parsed token is never empty (it starts with its sigil).
 // parseVarParenthesis / parseVarIndexElement: trusted (their results start with `$(` / `$name[`).
